@@ -367,7 +367,10 @@ Definition entry_text_ok (style : ngstyle) (name : str) (g : gparam) : bool :=
     | Some d =>
       prose_shape_ok style d && no_announce d
       && negb (optional_prefix d && negb (startswith (L "Optional[") t))
-      && match written_doc name g with Some d' => written_shape_ok style d' | None => false end
+      && match written_doc name g with
+         | Some d' => written_shape_ok style d' && negb (optional_prefix d' && negb (startswith (L "Optional[") t))
+         | None => false
+         end
     end
   end.
 
@@ -384,7 +387,17 @@ Proof.
     destruct (optional_prefix d && negb (startswith (L "Optional[") t)); cbn [negb andb] in *;
       [discriminate|].
     destruct (written_doc name g) as [d'|].
-    + destruct (written_shape_ok style d'); [reflexivity|].
+    + destruct (written_shape_ok style d'); cbn [negb andb] in *;
+        [destruct (optional_prefix d' && negb (startswith (L "Optional[") t)); [|reflexivity]|].
+      * destruct (writes_default name g); [|discriminate].
+        destruct (sdefault g) as [v|]; [|discriminate].
+        destruct (match needs_quoting_ng (Some t) with Ok _ => false | Err _ => true end); [discriminate|].
+        destruct (finding_class_C17 ADefaultsTo d v (Some t)); [discriminate|].
+        destruct v; try discriminate.
+        destruct (negb (str_eqb (unquote s) s) && negb (null_default (VStr s))); [discriminate|].
+        destruct (negb (str_eqb name return_type_name) && negb (kwargs_name name) && code_quoted s
+                  && negb (null_default (VStr s)) && negb (contains [ch 91] t)); discriminate.
+      *
       destruct (writes_default name g); [|discriminate].
       destruct (sdefault g) as [v|]; [|discriminate].
       destruct (match needs_quoting_ng (Some t) with Ok _ => false | Err _ => true end); [discriminate|].
@@ -392,7 +405,7 @@ Proof.
       destruct v; try discriminate.
       destruct (negb (str_eqb (unquote s) s) && negb (null_default (VStr s))); [discriminate|].
       destruct (negb (str_eqb name return_type_name) && negb (kwargs_name name) && code_quoted s
-                && negb (null_default (VStr s)) && negb (mem_c (ch 91) t)); discriminate.
+                && negb (null_default (VStr s)) && negb (contains [ch 91] t)); discriminate.
     + destruct (writes_default name g); [|discriminate].
       destruct (sdefault g) as [v|]; [|discriminate].
       destruct (match needs_quoting_ng (Some t) with Ok _ => false | Err _ => true end); [discriminate|].
@@ -400,7 +413,7 @@ Proof.
       destruct v; try discriminate.
       destruct (negb (str_eqb (unquote s) s) && negb (null_default (VStr s))); [discriminate|].
       destruct (negb (str_eqb name return_type_name) && negb (kwargs_name name) && code_quoted s
-                && negb (null_default (VStr s)) && negb (mem_c (ch 91) t)); discriminate.
+                && negb (null_default (VStr s)) && negb (contains [ch 91] t)); discriminate.
   - destruct (writes_default name g); [discriminate|reflexivity].
 Qed.
 
@@ -761,6 +774,7 @@ Proof.
     unfold written_doc in Hw. rewrite Hp in Hw. rewrite Hpd, Ed in Hw.
     rewrite (truthy_Has d Hdne) in Hw.
     destruct (doc_with_default name p) as [d'|e] eqn:Hdd; [|discriminate].
+    apply andb_true_iff in Hw. destruct Hw as [Hw _].
     exists d, d'. repeat split; try assumption. congruence.
 Qed.
 
@@ -817,7 +831,15 @@ Lemma written_shape_inv : forall style d', written_shape_ok style d' = true ->
 Proof.
   intros style d' H. unfold written_shape_ok in H.
   apply andb_true_iff in H. destruct H as [H _].
+  apply andb_true_iff in H. destruct H as [H _].
   apply andb_true_iff in H. destruct H as [Ht Hn]. apply negb_true_iff in Hn. split; assumption.
+Qed.
+
+Lemma written_shape_clean : forall style d', written_shape_ok style d' = true -> clean_ends d' = true.
+Proof.
+  intros style d' H. unfold written_shape_ok in H.
+  apply andb_true_iff in H. destruct H as [H _].
+  apply andb_true_iff in H. destruct H as [_ H]. exact H.
 Qed.
 
 Lemma colon_not_id_char : is_id_char (ch 58) = false.
@@ -1284,4 +1306,622 @@ Proof.
   destruct v' as [|b|z|r|s]; [contradiction| | | |];
     cbn [unquote_val p_default p_doc p_typ andb]; rewrite andb_false_r; cbn [bind];
       rewrite orb_true_r; reflexivity.
+Qed.
+
+Lemma no_announce_nil : no_announce [] = true.
+Proof. reflexivity. Qed.
+
+(* prose that announces nothing: interpolation leaves it alone; a forced default is the zero of the type *)
+Lemma interpolate_plain : forall d t,
+    no_announce d = true ->
+    interpolate_force (mkParam (Has d) (Has t) None) false false = Ok (mkParam (Has d) (Has t) None, false)
+    /\ (in_simple_types t = false ->
+        interpolate_force (mkParam (Has d) (Has t) None) true false
+        = Ok (mkParam (Has d) (Has t) (Some (VStr NoneStr)), true)).
+Proof.
+  intros d t Hna.
+  pose proof (extract_default_no_announce d true (Some t) false Hna) as He.
+  split.
+  - unfold interpolate_force, interpolate_defaults. cbn [p_doc p_typ p_default fget extract_default_fld].
+    rewrite He. cbn [bind fst snd p_default p_doc p_typ andb orb]. reflexivity.
+  - intros Hsim. unfold interpolate_force, interpolate_defaults.
+    cbn [p_doc p_typ p_default fget extract_default_fld].
+    rewrite He. cbn [bind fst snd p_default p_doc p_typ andb orb]. rewrite Hsim.
+    cbn [bind p_default orb]. reflexivity.
+Qed.
+
+(* word_wrap=True on one clean line is the identity *)
+Lemma ww_norm_id : forall d, mem_c nl d = false -> clean_ends d = true ->
+    rstrip (join [sp] (map strip (split [nl] d))) = d.
+Proof.
+  intros d Hnl Hce. destruct (clean_ends_inv d Hce) as [Hh Hl].
+  change (split [nl] d) with (split_nl d). rewrite (split_nl_no_nl d Hnl). cbn [map join].
+  rewrite (strip_id d Hh Hl). apply rstrip_id_last. exact Hl.
+Qed.
+
+(* the common tail of _set_name_and_type (google_opt rule, empty prose removal, word wrap, Optional rule) *)
+Ltac snt_tail d t Htopt Hdnl Hdce Hopt :=
+  cbn [bind fst snd p_typ p_doc p_default fget];
+  rewrite Htopt;
+  destruct d as [|c0 d0];
+  [ reflexivity
+  | cbv zeta; rewrite (ww_norm_id (c0 :: d0) Hdnl Hdce);
+    unfold optional_prefix in Hopt;
+    destruct (startswith (L "(Optional)") (c0 :: d0) || startswith (L "Optional") (c0 :: d0));
+    [ cbn [andb] in Hopt; apply negb_false_iff in Hopt; rewrite Hopt; reflexivity
+    | reflexivity ] ].
+
+Definition doc_fld (d : str) : fld str := match d with [] => Missing | _ => Has d end.
+
+(* _set_name_and_type on an ordinary name without default *)
+Lemma snt_plain : forall name d t,
+    kwargs_name name = false ->
+    endswith google_opt t = false -> mem_c nl d = false -> clean_ends d = true ->
+    optional_prefix d && negb (startswith (L "Optional[") t) = false ->
+    set_name_and_type name (mkParam (Has d) (Has t) None) false false true
+    = Ok (name, mkParam (doc_fld d) (Has t) None).
+Proof.
+  intros name d t Hkw Htopt Hdnl Hdce Hopt.
+  unfold set_name_and_type. unfold kwargs_name in Hkw. rewrite Hkw.
+  cbn [p_default]. snt_tail d t Htopt Hdnl Hdce Hopt.
+Qed.
+
+(* _set_name_and_type on a ...kwargs name: the default becomes NoneStr when there is none *)
+Lemma snt_kwargs : forall name d t dflt,
+    kwargs_name name = true -> startswith [ch 42] name = false -> str_eqb t (L "dict") = false ->
+    (dflt = None \/ dflt = Some (VStr NoneStr)) ->
+    endswith google_opt t = false -> mem_c nl d = false -> clean_ends d = true ->
+    optional_prefix d && negb (startswith (L "Optional[") t) = false ->
+    set_name_and_type name (mkParam (Has d) (Has t) dflt) false false true
+    = Ok (name, mkParam (doc_fld d) (Has t) (Some (VStr NoneStr))).
+Proof.
+  intros name d t dflt Hkw Hstar Hdict Hdflt Htopt Hdnl Hdce Hopt.
+  unfold set_name_and_type. unfold kwargs_name in Hkw. rewrite Hkw.
+  cbn [p_default p_typ p_doc]. rewrite Hdict.
+  assert (Hn : lstrip_chars [ch 42] name = name).
+  { unfold lstrip_chars. apply lstrip_by_id. intros c Hc. destruct name as [|x name]; [discriminate|].
+    injection Hc as Hc. subst x. cbn [startswith] in Hstar. rewrite andb_true_r in Hstar.
+    cbn [mem_c existsb]. rewrite ascii_eqb_sym, Hstar. reflexivity. }
+  rewrite Hn.
+  destruct Hdflt as [E|E]; subst dflt; snt_tail d t Htopt Hdnl Hdce Hopt.
+Qed.
+
+Lemma none_strs_unquote : forall s, existsb (str_eqb s) Extracted.none_types_strs = true -> unquote s = s.
+Proof.
+  intros s H. apply existsb_exists in H. destruct H as [x [Hin Hx]]. apply str_eqb_eq in Hx. subst x.
+  assert (Hall : forallb (fun s => str_eqb (unquote s) s) Extracted.none_types_strs = true)
+    by (vm_compute; reflexivity).
+  rewrite forallb_forall in Hall. apply str_eqb_eq. apply Hall. exact Hin.
+Qed.
+
+Lemma unquote_val_NoneStr : unquote_val (VStr NoneStr) = VStr NoneStr.
+Proof. vm_compute. reflexivity. Qed.
+
+Lemma in_none_types_NoneStr : in_none_types (VStr NoneStr) = true.
+Proof. vm_compute. reflexivity. Qed.
+
+(* the value _infer_default leaves in the IR, from the value extract_default found *)
+Definition final_default (v' : pyval) : pyval :=
+  let u := unquote_val v' in
+  unquote_val (if in_none_types u then VStr NoneStr else u).
+
+Lemma final_default_same : forall v v',
+    same_default v v' = true -> v' <> VNone ->
+    (forall s, v = VStr s -> null_default v = false -> unquote s = s) ->
+    (pyval_eqb v (final_default v') || (in_none_types v && in_none_types (final_default v')) = true)
+    /\ (in_none_types (unquote_val v') = false -> final_default v' = v)
+    /\ (in_none_types (unquote_val v') = true -> final_default v' = VStr NoneStr).
+Proof.
+  intros v v' Hs Hnn Hq. unfold final_default. cbv zeta.
+  split; [|split].
+  - unfold same_default in Hs. apply orb_true_iff in Hs. destruct Hs as [Hs|Hs].
+    + apply pyval_eqb_eq in Hs. rewrite <- Hs.
+      destruct (in_none_types v) eqn:Hn.
+      * rewrite unquote_val_NoneStr, in_none_types_NoneStr. cbn [andb]. apply orb_true_r.
+      * assert (E : unquote_val v = v).
+        { destruct v as [|b|z|r|s]; try reflexivity. cbn [unquote_val]. f_equal. apply (Hq s eq_refl).
+          unfold null_default. apply orb_false_iff. split; [reflexivity|].
+          destruct (pyval_eqb (VStr s) (VStr NoneStr)) eqn:E; [|reflexivity].
+          apply pyval_eqb_eq in E. rewrite E in Hn. rewrite in_none_types_NoneStr in Hn. discriminate. }
+        rewrite E, pyval_eqb_refl. reflexivity.
+    + apply andb_true_iff in Hs. destruct Hs as [Hv Hv']. unfold none_like in *.
+      assert (Eu : unquote_val v' = v').
+      { destruct v' as [|b|z|r|s]; try reflexivity. cbn [unquote_val]. f_equal.
+        apply none_strs_unquote. exact Hv'. }
+      rewrite Eu, Hv'. rewrite unquote_val_NoneStr, in_none_types_NoneStr, Hv. apply orb_true_r.
+  - intros Hn. rewrite Hn. unfold same_default in Hs. apply orb_true_iff in Hs. destruct Hs as [Hs|Hs].
+    + apply pyval_eqb_eq in Hs. rewrite <- Hs. rewrite <- Hs in Hn.
+      destruct v as [|b|z|r|s]; try reflexivity. cbn [unquote_val]. f_equal. apply (Hq s eq_refl).
+      unfold null_default. apply orb_false_iff. split; [reflexivity|].
+      destruct (pyval_eqb (VStr s) (VStr NoneStr)) eqn:E; [|reflexivity].
+      apply pyval_eqb_eq in E. rewrite E in Hn. rewrite in_none_types_NoneStr in Hn. discriminate.
+    + exfalso. apply andb_true_iff in Hs. destruct Hs as [_ Hv']. unfold none_like in Hv'.
+      assert (Eu : unquote_val v' = v').
+      { destruct v' as [|b|z|r|s]; try reflexivity. cbn [unquote_val]. f_equal.
+        apply none_strs_unquote. exact Hv'. }
+      rewrite Eu in Hn. congruence.
+  - intros Hn. rewrite Hn. apply unquote_val_NoneStr.
+Qed.
+
+(* _set_name_and_type on an ordinary name carrying the default found by interpolation *)
+Lemma snt_default : forall name d t u nq,
+    kwargs_name name = false -> needs_quoting_ng (Some t) = Ok nq ->
+    (let v2 := unquote_val (if in_none_types u then VStr NoneStr else u) in
+     negb (pyval_eqb v2 (VStr NoneStr)) && code_quoted_val v2 = true -> contains [ch 91] t = true) ->
+    endswith google_opt t = false -> mem_c nl d = false -> clean_ends d = true ->
+    optional_prefix d && negb (startswith (L "Optional[") t) = false ->
+    set_name_and_type name (mkParam (Has d) (Has t) (Some u)) false false true
+    = Ok (name, mkParam (doc_fld d) (Has t)
+                        (Some (unquote_val (if in_none_types u then VStr NoneStr else u)))).
+Proof.
+  intros name d t u nq Hkw Hnq Hcq Htopt Hdnl Hdce Hopt.
+  unfold set_name_and_type. unfold kwargs_name in Hkw. rewrite Hkw.
+  cbn [p_default]. unfold infer_default. cbn [p_typ p_doc fget andb]. cbv zeta. rewrite Hnq.
+  cbn [bind]. cbv zeta in Hcq.
+  destruct (negb (pyval_eqb (unquote_val (if in_none_types u then VStr NoneStr else u)) (VStr NoneStr))
+            && code_quoted_val (unquote_val (if in_none_types u then VStr NoneStr else u))) eqn:Ec.
+  - rewrite (Hcq eq_refl). snt_tail d t Htopt Hdnl Hdce Hopt.
+  - snt_tail d t Htopt Hdnl Hdce Hopt.
+Qed.
+
+(* ------------------------------------------------------------------ *)
+(* 12. one entry, end to end at the level of blocks                     *)
+(* ------------------------------------------------------------------ *)
+
+Lemma is_id_char_nonspace : forall c, is_id_char c = true -> isspace c = false.
+Proof.
+  intros [b0 b1 b2 b3 b4 b5 b6 b7].
+  destruct b0, b1, b2, b3, b4, b5, b6, b7; vm_compute; intros H; try reflexivity; discriminate H.
+Qed.
+
+Lemma ident_facts : forall name, is_ident name = true ->
+    name <> [] /\ head_nonspace name /\ last_nonspace name
+    /\ mem_c (ch 58) name = false /\ mem_c (ch 40) name = false /\ startswith [ch 42] name = false.
+Proof.
+  intros name H. pose proof (is_ident_nonnil name H) as Hne.
+  assert (Hall : forallb is_id_char name = true).
+  { unfold is_ident in H. destruct name; [discriminate|]. apply andb_true_iff in H. apply H. }
+  rewrite forallb_forall in Hall.
+  split; [exact Hne|]. split.
+  { intros c Hc. apply is_id_char_nonspace. apply Hall. destruct name as [|x r]; [discriminate|].
+    injection Hc as Hc. subst. left. reflexivity. }
+  split.
+  { intros c Hc. apply is_id_char_nonspace. apply Hall. apply last_c_In. exact Hc. }
+  split; [apply is_ident_no_char; [exact H|reflexivity]|].
+  split; [apply is_ident_no_char; [exact H|reflexivity]|].
+  destruct name as [|x r]; [reflexivity|]. cbn [startswith]. rewrite andb_true_r.
+  destruct (ascii_eqb (ch 42) x) eqn:E; [|reflexivity].
+  apply ascii_eqb_eq in E. subst x.
+  assert (Hx : is_id_char (ch 42) = true) by (apply Hall; left; reflexivity). discriminate Hx.
+Qed.
+
+Lemma type_shape_inv : forall style t, type_shape_ok style t = true ->
+    clean_ends t = true /\ endswith google_opt t = false
+    /\ match style with
+       | SGoogle => mem_c (ch 58) t = false /\ contains (L " or ") t = false
+       | SNumpydoc => True
+       end.
+Proof.
+  intros style t H. unfold type_shape_ok in H.
+  apply andb_true_iff in H. destruct H as [H Hs].
+  apply andb_true_iff in H. destruct H as [H Hopt].
+  apply andb_true_iff in H. destruct H as [Hce _].
+  apply negb_true_iff in Hopt. split; [exact Hce|]. split; [exact Hopt|].
+  destruct style; [|exact I].
+  apply andb_true_iff in Hs. destruct Hs as [H58 Hor].
+  apply negb_true_iff in H58. apply negb_true_iff in Hor. split; assumption.
+Qed.
+
+Lemma written_shape_google_inv : forall d', written_shape_ok SGoogle d' = true ->
+    clean_ends d' = true
+    /\ Nat.ltb 3 (List.length d') && startswith [ch 123] d' && endswith [ch 125] d' = false
+    /\ endswith [ch 58] d' = false.
+Proof.
+  intros d' H. pose proof (written_shape_clean SGoogle d' H) as Hce.
+  unfold written_shape_ok in H. apply andb_true_iff in H. destruct H as [_ H].
+  apply andb_true_iff in H. destruct H as [Hb Hc]. apply negb_true_iff in Hb. apply negb_true_iff in Hc.
+  split; [exact Hce|]. split; assumption.
+Qed.
+
+(* _parse on the unit of a guard entry *)
+Lemma parse_unit_entry : forall style name g p t,
+    is_ident name = true -> entry_facts style name g p t ->
+    exists dd, parse_unit style (unit_of_entry style name g) = PSome name (mkParam (Has dd) (Has t) None)
+               /\ ((p_doc p = Missing /\ dd = [])
+                   \/ (exists d, p_doc p = Has d /\ d <> [] /\ doc_with_default name p = Ok dd)).
+Proof.
+  intros style name g p t Hid [Hp [Ht [Htne [Httf [Hts [Hpdef Hdoc]]]]]].
+  destruct (ident_facts name Hid) as [Hne [Hh [Hl [H58 [H40 _]]]]].
+  destruct (type_shape_inv style t Hts) as [Htce [_ Hst]].
+  destruct (clean_ends_inv t Htce) as [Hth _].
+  assert (Egt : fget (g_typ g) = Some t).
+  { unfold param_of_gparam in Hp. destruct (g_default g) as [[v|e|r]|]; try discriminate;
+      injection Hp as Hp; subst p; cbn [p_typ] in Ht; rewrite Ht; reflexivity. }
+  assert (Egd : p_doc p = g_doc g).
+  { unfold param_of_gparam in Hp. destruct (g_default g) as [[v|e|r]|]; try discriminate;
+      injection Hp as Hp; subst p; reflexivity. }
+  unfold unit_of_entry. rewrite Egt. unfold written_doc. rewrite Hp.
+  destruct Hdoc as [[Hd Hw] | [d [d' [Hd [Hdne [Hce [Hdnl [Hna [Hdtf [Hopt [Hdd Hws]]]]]]]]]]].
+  - exists []. split; [|left; split; [exact Hd|reflexivity]].
+    rewrite Hd. cbn [truthy_fld].
+    destruct style; cbn [parse_unit].
+    + destruct Hst as [Ht58 Hor].
+      replace (L "  " ++ name ++ L " (" ++ t ++ L "): ") with (L "  " ++ name ++ L " (" ++ t ++ L "): " ++ [])
+        by (rewrite app_nil_r; reflexivity).
+      apply parse_google_param; try assumption.
+      * intros c Hc. discriminate.
+      * intros c Hc. discriminate.
+      * reflexivity.
+    + apply parse_numpydoc_param_nodoc; try assumption.
+      * apply rstrip_id_last. exact Hl.
+      * apply lstrip_id_head. exact Hth.
+  - exists d'.
+    split; [|right; exists d; repeat split; assumption].
+    rewrite Hd, (truthy_Has d Hdne), Hdd.
+    destruct (doc_with_default_prefix name p d d' Hdd Hd) as [x Hx].
+    destruct (clean_ends_inv d Hce) as [Hdh _].
+    assert (Hd'h : head_nonspace d') by (subst d'; apply head_nonspace_app; assumption).
+    destruct style; cbn [parse_unit].
+    + destruct Hst as [Ht58 Hor]. destruct (written_shape_google_inv d' Hws) as [Hd'ce [Hbrace _]].
+      destruct (clean_ends_inv d' Hd'ce) as [_ Hd'l].
+      apply parse_google_param; assumption.
+    + apply parse_numpydoc_param; try assumption.
+      * apply rstrip_id_last. exact Hl.
+      * apply lstrip_id_head. exact Hth.
+      * apply lstrip_id_head. exact Hd'h.
+Qed.
+
+(* what the guard says about a default that gets written *)
+Lemma entry_class_default_facts : forall style name g t d,
+    entry_class style name g = None ->
+    fget (g_typ g) = Some t -> fget (g_doc g) = Some d -> writes_default name g = true ->
+    exists v nq, sdefault g = Some v /\ needs_quoting_ng (Some t) = Ok nq
+                 /\ finding_class_C17 ADefaultsTo d v (Some t) = None
+                 /\ (forall s, v = VStr s -> null_default v = false ->
+                               unquote s = s
+                               /\ (str_eqb name return_type_name = false -> kwargs_name name = false ->
+                                   code_quoted s = true -> contains [ch 91] t = true)).
+Proof.
+  intros style name g t d H Ht Hd Hw. unfold entry_class in H. rewrite Ht, Hd, Hw in H.
+  destruct (negb (gparam_token_free g)); [discriminate|].
+  destruct (negb (type_shape_ok style t)); [discriminate|].
+  destruct (negb (prose_shape_ok style d)); [discriminate|].
+  destruct (negb (no_announce d)); [discriminate|].
+  destruct (optional_prefix d && negb (startswith (L "Optional[") t)); [discriminate|].
+  destruct (sdefault g) as [v|] eqn:Hv.
+  2:{ unfold writes_default in Hw. rewrite Hv in Hw. discriminate. }
+  destruct (needs_quoting_ng (Some t)) as [nq|e] eqn:Hnq; [|discriminate].
+  destruct (finding_class_C17 ADefaultsTo d v (Some t)) eqn:Hc; [discriminate|].
+  exists v, nq. split; [reflexivity|]. split; [reflexivity|]. split; [exact Hc|].
+  intros s Es Hnull. subst v. rewrite Hnull in H. cbn [negb] in H. rewrite !andb_true_r in H.
+  destruct (str_eqb (unquote s) s) eqn:Eu; cbn [negb] in H; [|discriminate].
+  split; [apply str_eqb_eq; exact Eu|].
+  intros Hnr Hkw Hcq. rewrite Hnr, Hkw, Hcq in H. cbn [negb andb] in H.
+  destruct (contains [ch 91] t); [reflexivity|discriminate].
+Qed.
+
+(* when no sentence is written the prose goes out as it is *)
+Lemma doc_with_default_nowrite : forall name g p d,
+    param_of_gparam g = Some p -> p_default p = sdefault g -> p_doc p = Has d ->
+    writes_default name g = false -> doc_with_default name p = Ok d.
+Proof.
+  intros name g p d Hp Hpd Hd Hw. unfold doc_with_default, set_default_doc. rewrite Hd. cbv zeta.
+  rewrite andb_false_r. rewrite Hpd. unfold writes_default in Hw.
+  destruct (sdefault g) as [v|]; [|cbn [bind]; rewrite Hd; reflexivity].
+  apply orb_false_iff in Hw. destruct Hw as [Hn Hk].
+  apply negb_false_iff in Hn. apply negb_false_iff in Hk.
+  destruct (negb (contains (L "Defaults") d || contains (L "defaults") d) && true);
+    [|cbn [bind]; rewrite Hd; reflexivity].
+  assert (E : (if pyval_eqb v (VStr NoneStr) then VNone else v) = VNone).
+  { unfold null_default in Hn. apply orb_true_iff in Hn. destruct Hn as [Hn|Hn].
+    - apply pyval_eqb_eq in Hn. subst v. reflexivity.
+    - rewrite Hn. reflexivity. }
+  rewrite E. change (pyval_eqb VNone VNone) with true. cbn [negb orb]. rewrite Hk. cbn [negb bind p_doc].
+  reflexivity.
+Qed.
+
+Lemma null_default_none_like : forall v, null_default v = true -> in_none_types v = true.
+Proof.
+  intros v H. unfold null_default in H. apply orb_true_iff in H. destruct H as [H|H];
+    apply pyval_eqb_eq in H; subst v; vm_compute; reflexivity.
+Qed.
+
+Lemma in_domain_default : forall g, gparam_in_domain g = true -> sdefault g = None -> g_default g = None.
+Proof.
+  intros g H Hs. unfold gparam_in_domain in H. apply andb_true_iff in H. destruct H as [_ H].
+  unfold sdefault in Hs. destruct (g_default g) as [[v|e|r]|]; try discriminate; reflexivity.
+Qed.
+
+Lemma in_domain_default_some : forall g v, sdefault g = Some v -> g_default g = Some (DV v).
+Proof.
+  intros g v Hs. unfold sdefault in Hs. destruct (g_default g) as [[w|e|r]|]; try discriminate.
+  injection Hs as Hs. subst. reflexivity.
+Qed.
+
+Lemma fld_eqb_refl : forall f, fld_eqb f f = true.
+Proof. intros [| |s]; cbn; try reflexivity. apply str_eqb_refl. Qed.
+
+(* the forced-default side condition carried through the parameter list (cf. defaults_monotone) *)
+Definition forced_ok (req : bool) (name : str) (g : gparam) : Prop :=
+  req = true ->
+  writes_default name g = true
+  \/ (kwargs_name name = true /\ (exists v, sdefault g = Some v /\ null_default v = true)
+      /\ match fget (g_typ g) with Some t => in_simple_types t = false | None => True end).
+
+(* ONE ENTRY, blocks to IR: the unit written for a guard entry is parsed, interpolated and named back into an entry
+   that is the same (type, prose, default with its Python type) *)
+Lemma entry_pipeline : forall style name g req,
+    is_ident name = true -> str_eqb name return_type_name = false ->
+    gparam_in_domain g = true -> entry_class style name g = None -> kwargs_class name g = None ->
+    forced_ok req name g ->
+    exists p0 p1 q,
+      parse_unit style (unit_of_entry style name g) = PSome name p0
+      /\ interpolate_force p0 req false = Ok (p1, req || writes_default name g)
+      /\ set_name_and_type name p1 false false true = Ok (name, q)
+      /\ gparam_same g (gparam_of_param q) = true.
+Proof.
+  intros style name g req Hid Hnr Hgd Hec Hkc Hforced.
+  destruct (entry_facts_of_guard style name g Hgd Hec) as [p [t Hef]].
+  destruct (parse_unit_entry style name g p t Hid Hef) as [dd [Hparse Hdd]].
+  destruct Hef as [Hp [Ht [Htne [Httf [Hts [Hpdef Hdoc]]]]]].
+  destruct (gparam_in_domain_param g Hgd) as [p' [Hp' [Hpd' [Hpt' _]]]].
+  rewrite Hp in Hp'. injection Hp' as E. subst p'.
+  destruct (type_shape_inv style t Hts) as [Htce [Htopt _]].
+  destruct (ident_facts name Hid) as [_ [_ [_ [_ [_ Hstar]]]]].
+  assert (Egt : fget (g_typ g) = Some t) by (rewrite <- Hpt', Ht; reflexivity).
+  assert (Etyp : fld_eqb (g_typ g) (Has t) = true) by (rewrite <- Hpt', Ht; apply fld_eqb_refl).
+  (* the kwargs side *)
+  assert (Hkwfacts : kwargs_name name = true ->
+                     (exists v, sdefault g = Some v /\ null_default v = true)
+                     /\ str_eqb t (L "dict") = false /\ writes_default name g = false).
+  { intros Hkw. unfold kwargs_class in Hkc. rewrite Hkw in Hkc.
+    destruct (sdefault g) as [v|] eqn:Hv; [|discriminate].
+    rewrite Egt in Hkc. cbn [opt_str_eqb] in Hkc.
+    destruct (null_default v) eqn:Hnull; cbn [andb] in Hkc; [|discriminate].
+    destruct (str_eqb t (L "dict")) eqn:Hdict; cbn [negb andb] in Hkc; [discriminate|].
+    split; [exists v; split; reflexivity || exact Hnull|]. split; [reflexivity|].
+    unfold writes_default. rewrite Hv, Hnull. cbn [negb orb].
+    unfold kwargs_name in Hkw. apply orb_true_iff in Hkw. destruct Hkw as [Hkw|Hkw].
+    - rewrite Hkw. reflexivity.
+    - exfalso. destruct name as [|x r]; [discriminate|].
+      cbn [L String.list_ascii_of_string startswith] in Hkw, Hstar.
+      apply andb_true_iff in Hkw. destruct Hkw as [Hx _]. rewrite andb_true_r in Hstar.
+      apply ascii_eqb_eq in Hx. subst x. vm_compute in Hstar. discriminate Hstar. }
+  exists (mkParam (Has dd) (Has t) None).
+  destruct (writes_default name g) eqn:Hw.
+  - (* a default is written *)
+    destruct Hdoc as [[Hd Hw'] | [d [d' [Hd [Hdne [Hce [Hdnl [Hna [Hdtf [Hopt [Hdd' Hws]]]]]]]]]]];
+      [congruence|].
+    destruct Hdd as [[Hd0 _] | [d0 [Hd0 [_ Hdd0]]]]; [congruence|].
+    rewrite Hdd' in Hdd0. injection Hdd0 as E. subst dd.
+    assert (Egd : fget (g_doc g) = Some d) by (rewrite <- Hpd', Hd; reflexivity).
+    destruct (entry_class_default_facts style name g t d Hec Egt Egd Hw) as [v [nq [Hv [Hnq [Hc17 Hstr]]]]].
+    assert (Hkwf : kwargs_name name = false).
+    { destruct (kwargs_name name) eqn:Hkw; [|reflexivity].
+      destruct (Hkwfacts eq_refl) as [_ [_ Hwf]]. discriminate. }
+    assert (Hwcond : negb (null_default v) || negb (endswith (L "kwargs") name) = true).
+    { unfold writes_default in Hw. rewrite Hv in Hw. exact Hw. }
+    assert (Hg17 : guard_C17 ADefaultsTo d v (Some t) = true).
+    { unfold guard_C17. rewrite Hc17. unfold C17_domain. rewrite Hna.
+      destruct d; [contradiction|reflexivity]. }
+    assert (Hpv : p_default p = Some v) by (rewrite Hpdef; exact Hv).
+    destruct (interpolate_written name p d t v d' req Hd Ht Hpv Hwcond Hg17 Hdd') as [v' [Hint [Hsame Hnn]]].
+    exists (mkParam (Has d) (Has t) (Some (unquote_val v'))).
+    assert (Hq : forall s, v = VStr s -> null_default v = false -> unquote s = s).
+    { intros s Es Hn. apply (Hstr s Es Hn). }
+    destruct (final_default_same v v' Hsame Hnn Hq) as [Hfd [Hfd1 Hfd2]].
+    exists (mkParam (doc_fld d) (Has t) (Some (final_default v'))).
+    split; [exact Hparse|]. split; [rewrite orb_true_r; exact Hint|]. split.
+    + apply (snt_default name d t (unquote_val v') nq Hkwf Hnq); try assumption.
+      cbv zeta. intros Hcq.
+      destruct (in_none_types (unquote_val v')) eqn:Hn.
+      * rewrite unquote_val_NoneStr in Hcq. change (pyval_eqb (VStr NoneStr) (VStr NoneStr)) with
+            (str_eqb NoneStr NoneStr) in Hcq. rewrite str_eqb_refl in Hcq. discriminate.
+      * pose proof (Hfd1 eq_refl) as Efd. unfold final_default in Efd. cbv zeta in Efd. rewrite Hn in Efd.
+        rewrite Efd in Hcq. apply andb_true_iff in Hcq. destruct Hcq as [Hns Hcode].
+        destruct v as [|b|z|r|s]; try discriminate. cbn [code_quoted_val] in Hcode.
+        assert (Hnull : null_default (VStr s) = false).
+        { unfold null_default. apply negb_true_iff in Hns. rewrite Hns. reflexivity. }
+        apply (Hstr s eq_refl Hnull); assumption.
+    + unfold gparam_same, gparam_of_param. cbn [g_typ g_doc g_default p_typ p_doc p_default option_map].
+      rewrite Etyp. rewrite <- Hpd', Hd.
+      destruct d as [|c1 d1]; [contradiction|]. cbn [doc_fld]. rewrite fld_eqb_refl.
+      rewrite (in_domain_default_some g v Hv). cbn [andb default_eqb]. exact Hfd.
+  - (* no default is written *)
+    assert (Hdd_eq : exists d, dd = d /\ p_doc p = (match d with [] => Missing | _ => Has d end)
+                               /\ no_announce d = true /\ mem_c nl d = false /\ clean_ends d = true
+                               /\ optional_prefix d && negb (startswith (L "Optional[") t) = false).
+    { destruct Hdoc as [[Hd Hw'] | [d [d' [Hd [Hdne [Hce [Hdnl [Hna [Hdtf [Hopt [Hdd' Hws]]]]]]]]]]].
+      - destruct Hdd as [[_ E] | [d0 [Hd0 _]]]; [|congruence]. subst dd. exists [].
+        repeat split; try reflexivity. exact Hd.
+      - destruct Hdd as [[Hd0 _] | [d0 [Hd0 [_ Hdd0]]]]; [congruence|].
+        rewrite (doc_with_default_nowrite name g p d Hp Hpdef Hd Hw) in Hdd0. injection Hdd0 as E. subst dd.
+        exists d. split; [reflexivity|]. split; [destruct d; [contradiction|exact Hd]|].
+        repeat split; assumption. }
+    destruct Hdd_eq as [d [E [Hpd [Hna [Hdnl [Hce Hopt]]]]]]. subst dd.
+    destruct (interpolate_plain d t Hna) as [Hi0 Hi1].
+    assert (Edoc : fld_eqb (g_doc g) (doc_fld d) = true).
+    { rewrite <- Hpd', Hpd. destruct d; apply fld_eqb_refl. }
+    destruct (kwargs_name name) eqn:Hkw.
+    + destruct (Hkwfacts eq_refl) as [[v [Hv Hnull]] [Hdict _]].
+      destruct req.
+      * assert (Hsim : in_simple_types t = false).
+        { destruct (Hforced eq_refl) as [Hc|[_ [_ Hc]]]; [congruence|]. rewrite Egt in Hc. exact Hc. }
+        exists (mkParam (Has d) (Has t) (Some (VStr NoneStr))).
+        exists (mkParam (doc_fld d) (Has t) (Some (VStr NoneStr))).
+        split; [exact Hparse|]. split; [exact (Hi1 Hsim)|]. split.
+        -- apply snt_kwargs; try assumption. right. reflexivity.
+        -- unfold gparam_same, gparam_of_param. cbn [g_typ g_doc g_default p_typ p_doc p_default option_map].
+           rewrite Etyp, Edoc, (in_domain_default_some g v Hv). cbn [andb default_eqb].
+           rewrite (null_default_none_like v Hnull), in_none_types_NoneStr. apply orb_true_r.
+      * exists (mkParam (Has d) (Has t) None).
+        exists (mkParam (doc_fld d) (Has t) (Some (VStr NoneStr))).
+        split; [exact Hparse|]. split; [exact Hi0|]. split.
+        -- apply snt_kwargs; try assumption. left. reflexivity.
+        -- unfold gparam_same, gparam_of_param. cbn [g_typ g_doc g_default p_typ p_doc p_default option_map].
+           rewrite Etyp, Edoc, (in_domain_default_some g v Hv). cbn [andb default_eqb].
+           rewrite (null_default_none_like v Hnull), in_none_types_NoneStr. apply orb_true_r.
+    + destruct req.
+      * exfalso. destruct (Hforced eq_refl) as [Hc|[Hc _]]; congruence.
+      * exists (mkParam (Has d) (Has t) None). exists (mkParam (doc_fld d) (Has t) None).
+        split; [exact Hparse|]. split; [exact Hi0|]. split.
+        -- apply snt_plain; assumption.
+        -- unfold gparam_same, gparam_of_param. cbn [g_typ g_doc g_default p_typ p_doc p_default option_map].
+           rewrite Etyp, Edoc. cbn [andb].
+           assert (Hsd : sdefault g = None).
+           { unfold writes_default in Hw. destruct (sdefault g) as [v|] eqn:Hv; [|reflexivity].
+             exfalso. apply orb_false_iff in Hw. destruct Hw as [_ Hk]. apply negb_false_iff in Hk.
+             unfold kwargs_name in Hkw. rewrite Hk in Hkw. discriminate. }
+           rewrite (in_domain_default g Hgd Hsd). reflexivity.
+Qed.
+
+(* ------------------------------------------------------------------ *)
+(* 13. the whole parameter list, blocks to IR, any number of parameters *)
+(* ------------------------------------------------------------------ *)
+
+Definition entry_guard (style : ngstyle) (np : str * gparam) : Prop :=
+  is_ident (fst np) = true /\ str_eqb (fst np) return_type_name = false
+  /\ gparam_in_domain (snd np) = true
+  /\ entry_class style (fst np) (snd np) = None /\ kwargs_class (fst np) (snd np) = None.
+
+Fixpoint forced_all (req : bool) (ps : list (str * gparam)) : Prop :=
+  match ps with
+  | [] => True
+  | (n, g) :: r => forced_ok req n g /\ forced_all (req || writes_default n g) r
+  end.
+
+Lemma defaults_monotone_forced : forall ps seen, defaults_monotone seen ps = true -> forced_all seen ps.
+Proof.
+  induction ps as [|[n g] r IH]; intros seen H; [exact I|].
+  cbn [defaults_monotone] in H. cbv zeta in H. apply andb_true_iff in H. destruct H as [H Hr].
+  cbn [forced_all]. split; [|apply IH; exact Hr].
+  intros Hseen. subst seen. cbn [negb orb] in H.
+  apply orb_true_iff in H. destruct H as [H|H]; [left; exact H|]. right.
+  apply andb_true_iff in H. destruct H as [H Hsim].
+  apply andb_true_iff in H. destruct H as [Hkw Hnull].
+  split; [exact Hkw|]. split.
+  - destruct (sdefault g) as [v|]; [|discriminate]. exists v. split; [reflexivity|exact Hnull].
+  - destruct (fget (g_typ g)) as [t|]; [|exact I]. apply negb_true_iff in Hsim. exact Hsim.
+Qed.
+
+Definition ir_params_of (res : list (str * param)) : list (str * gparam) :=
+  map (fun np => (fst np, gparam_of_param (snd np))) res.
+
+(* THE PARAMETER LIST THEOREM (blocks to IR): the units written for the parameters of a guard IR come back, through
+   _parse, interpolate_defaults with the require_default flag threaded, and _set_name_and_type, as the same names in
+   the same order with the same types, prose and defaults; the flag that reaches the return entry is set exactly
+   when some parameter wrote a default *)
+Theorem params_loop_blocks : forall style ps tl req acc,
+    Forall (entry_guard style) ps -> forced_all req ps ->
+    exists res,
+      params_loop style rt_flags (units_of_params style ps ++ tl) req acc
+      = params_loop style rt_flags tl
+                    (req || existsb (fun np => writes_default (fst np) (snd np)) ps) (acc ++ res)
+      /\ map fst res = map fst ps
+      /\ params_same ps (ir_params_of res) = true.
+Proof.
+  intros style ps tl. induction ps as [|[n g] r IH]; intros req acc Hall Hforced.
+  - exists []. cbn [units_of_params map app existsb]. rewrite app_nil_r, orb_false_r.
+    repeat split.
+  - inversion Hall as [|x l Hx Hl]; subst. destruct Hx as [Hid [Hnr [Hgd [Hec Hkc]]]].
+    cbn [fst snd] in *. cbn [forced_all] in Hforced. destruct Hforced as [Hf Hfr].
+    destruct (entry_pipeline style n g req Hid Hnr Hgd Hec Hkc Hf) as [p0 [p1 [q [Hparse [Hint [Hsnt Hsame]]]]]].
+    destruct (IH (req || writes_default n g) (acc ++ [(n, q)]) Hl Hfr) as [res [Hloop [Hnames Hps]]].
+    exists ((n, q) :: res).
+    split; [|split].
+    + cbn [units_of_params map app params_loop fst snd]. rewrite Hparse.
+      change (f_emit_default_doc rt_flags) with false. rewrite Hint. cbn [bind].
+      change (f_infer_type rt_flags) with false. change (f_word_wrap rt_flags) with true.
+      rewrite Hsnt. cbn [bind].
+      unfold units_of_params in Hloop. rewrite Hloop. rewrite <- app_assoc. cbn [app existsb fst snd].
+      rewrite orb_assoc. reflexivity.
+    + cbn [map fst]. rewrite Hnames. reflexivity.
+    + cbn [ir_params_of map fst snd params_same]. rewrite str_eqb_refl, Hsame. cbn [andb]. exact Hps.
+Qed.
+
+(* OrderedDict(pairs) on distinct keys keeps the pairs as they are *)
+Lemma od_set_notin : forall {A} k (v : A) d,
+    existsb (str_eqb k) (map fst d) = false -> od_set k v d = d ++ [(k, v)].
+Proof.
+  intros A k v d. induction d as [|[k' v'] r IH]; intros H; [reflexivity|].
+  cbn [map fst existsb] in H. apply orb_false_iff in H. destruct H as [Hk Hr].
+  cbn [od_set]. rewrite Hk. rewrite (IH Hr). reflexivity.
+Qed.
+
+Lemma od_fold_uniq : forall {A} (l acc : list (str * A)),
+    uniq (map fst l) = true ->
+    (forall k, In k (map fst l) -> existsb (str_eqb k) (map fst acc) = false) ->
+    fold_left (fun d kv => od_set (fst kv) (snd kv) d) l acc = acc ++ l.
+Proof.
+  intros A l. induction l as [|[k v] r IH]; intros acc Hu Hdis.
+  - rewrite app_nil_r. reflexivity.
+  - cbn [map fst uniq] in Hu. apply andb_true_iff in Hu. destruct Hu as [Hk Hu].
+    apply negb_true_iff in Hk.
+    cbn [fold_left fst snd]. rewrite od_set_notin; [|apply Hdis; left; reflexivity].
+    rewrite IH; [rewrite <- app_assoc; reflexivity|exact Hu|].
+    intros k' Hin. rewrite map_app, existsb_app. cbn [map fst existsb]. rewrite orb_false_r.
+    rewrite (Hdis k' (or_intror Hin)). cbn [orb].
+    destruct (str_eqb k' k) eqn:E; [|reflexivity].
+    apply str_eqb_eq in E. subst k'.
+    exfalso. assert (Hex : existsb (str_eqb k) (map fst r) = true).
+    { apply existsb_exists. exists k. split; [exact Hin|apply str_eqb_refl]. }
+    congruence.
+Qed.
+
+Lemma od_of_pairs_uniq : forall {A} (l : list (str * A)), uniq (map fst l) = true -> od_of_pairs l = l.
+Proof.
+  intros A l H. unfold od_of_pairs. rewrite od_fold_uniq; [reflexivity|exact H|].
+  intros k _. reflexivity.
+Qed.
+
+(* ------------------------------------------------------------------ *)
+(* 14. the parse phase on the blocks of a guard IR                      *)
+(* ------------------------------------------------------------------ *)
+
+Lemma afterward_index_none : forall units k,
+    Forall (fun u => endswith [ch 58] (nth 0 u []) = false) units -> afterward_index units k = None.
+Proof.
+  intros units. induction units as [|u r IH]; intros k H; [reflexivity|].
+  inversion H as [|x l Hx Hl]; subst. cbv beta in Hx. cbn [afterward_index]. Show. rewrite Hx. apply IH. exact Hl.
+Qed.
+
+Lemma endswith_char_app : forall c a b, b <> [] -> endswith [c] (a ++ b) = endswith [c] b.
+Proof.
+  intros c a b Hb. destruct (endswith [c] b) eqn:E.
+  - apply endswith_single in E. apply endswith_single. rewrite last_c_app_nonnil; assumption.
+  - destruct (endswith [c] (a ++ b)) eqn:E2; [|reflexivity].
+    apply endswith_single in E2. rewrite last_c_app_nonnil in E2; [|exact Hb].
+    apply endswith_single in E2. congruence.
+Qed.
+
+Lemma type_shape_numpydoc_colon : forall t, type_shape_ok SNumpydoc t = true -> endswith [ch 58] t = false.
+Proof.
+  intros t H. unfold type_shape_ok in H. apply andb_true_iff in H. destruct H as [_ H].
+  apply negb_true_iff in H. exact H.
+Qed.
+
+(* the first line of the unit of a guard entry does not end with a colon: nothing is taken for "afterward" text *)
+Lemma unit_head_no_colon : forall style name g,
+    gparam_in_domain g = true -> entry_class style name g = None ->
+    endswith [ch 58] (nth 0 (unit_of_entry style name g) []) = false.
+Proof.
+  intros style name g Hgd Hec.
+  destruct (entry_facts_of_guard style name g Hgd Hec) as [p [t [Hp [Ht [Htne [Httf [Hts [Hpdef Hdoc]]]]]]]].
+  destruct (gparam_in_domain_param g Hgd) as [p' [Hp' [Hpd' [Hpt' _]]]].
+  rewrite Hp in Hp'. injection Hp' as E. subst p'.
+  assert (Egt : fget (g_typ g) = Some t) by (rewrite <- Hpt', Ht; reflexivity).
+  unfold unit_of_entry. rewrite Egt. unfold written_doc. rewrite Hp.
+  destruct Hdoc as [[Hd Hw] | [d [d' [Hd [Hdne [Hce [Hdnl [Hna [Hdtf [Hopt [Hdd Hws]]]]]]]]]]].
+  - rewrite Hd. cbn [truthy_fld]. destruct style; cbn [nth].
+    + rewrite !app_assoc. rewrite endswith_char_app; [reflexivity|discriminate].
+    + rewrite !app_assoc. rewrite endswith_char_app; [|exact Htne].
+      apply type_shape_numpydoc_colon. exact Hts.
+  - rewrite Hd, (truthy_Has d Hdne), Hdd.
+    destruct (doc_with_default_prefix name p d d' Hdd Hd) as [x Hx].
+    assert (Hd'ne : d' <> []) by (subst d'; apply app_nonnil_l; exact Hdne).
+    destruct style; cbn [nth].
+    + destruct (written_shape_google_inv d' Hws) as [_ [_ Hcolon]].
+      rewrite !app_assoc. rewrite endswith_char_app; [exact Hcolon|exact Hd'ne].
+    + rewrite !app_assoc. rewrite endswith_char_app; [|exact Htne].
+      apply type_shape_numpydoc_colon. exact Hts.
 Qed.
